@@ -270,6 +270,19 @@ _BTree_get(BTree *self, PyObject *keyarg, int has_key, int replace_type_err)
         return NULL;
     }
 
+#ifdef KEY_CHECK_ON_SET
+    /* A key that can never be stored (see _BTree_set) is not here; when
+       only searching, don't let its comparisons with the stored keys raise. */
+    if (replace_type_err && !KEY_CHECK_ON_SET(keyarg))
+    {
+        PyErr_Clear();
+        if (has_key)
+            return PyLong_FromLong(0);
+        PyErr_SetObject(PyExc_KeyError, keyarg);
+        return NULL;
+    }
+#endif
+
     PER_USE_OR_RETURN(self, NULL);
     if (self->len == 0)
     {
